@@ -270,6 +270,25 @@ def r1_r2_service(ctx, svc, fi: FuncInfo) -> None:
              for x, pol in conds)
   has_nan = any(('isnan' in unparse(x, 0) and not pol and 'any(' in unparse(x, 0)) or ('isnan' in unparse(x, 0) and not pol)
                 or ('isfinite' in unparse(x, 0) and pol) for x, pol in conds)
+  if not (has_state and has_subset and has_nan) and node is not None and node.loops:
+    # the tests may reach the append through a carried value (`vec = None ... if vec is None: continue`): decide on the
+    # paths of one iteration instead - every feasible path to the append must have taken the three tests
+    from vzstatic import pathcond
+    header = next((m for m in g.nodes if m.kind == 'for' and m.ast is node.loops[-1]), None)
+    if header is not None:
+      starts = [m for m, lab in header.succs if lab in ('T', 'body', 'iter') or (m.loops and m.loops[-1] is header.ast)]
+      pths = pathcond.paths(g, starts, node, stop=[header])
+      def all_paths(formula):
+        if not pths:
+          return False
+        for p_ in pths:
+          ok_, _ = pathcond.implies(pathcond.conditions(p_), formula)
+          if not ok_:
+            return False
+        return True
+      has_state = has_state or all_paths(lambda a: a.get(lambda k: f'{trialv}.state' in k and 'SUCCEEDED' in k and '==' in k))
+      has_subset = has_subset or all_paths(lambda a: a.get(lambda k: 'issubset' in k and 'metric' in k))
+      has_nan = has_nan or all_paths(lambda a: (a.get(lambda k: 'isnan' in k) is False) or (a.get(lambda k: 'isfinite' in k) is True))
   ctx.check(has_state, 'R1', 'considered only if state == SUCCEEDED', c,
             'append is control-dependent on trial.state == SUCCEEDED',
             'infeasible / unfinished trials can enter the candidate set', construct='state-filter', func=fi.qualname)
